@@ -943,23 +943,34 @@ class Interp(ExtMixin):
 
     def bind_args(self, fnode, f, args, kwargs, st):
         a = fnode.args
-        if a.vararg or a.kwarg or a.posonlyargs:
-            raise Unsupported("varargs in callee")
+        if a.posonlyargs:
+            raise Unsupported("positional-only parameters in callee")
         names = [x.arg for x in a.args]
         vals = {}
         pos = list(args)
         if f.bound_self is not None:
             pos = [f.bound_self] + pos
         if len(pos) > len(names):
-            raise Unsupported("too many positional args")
+            if not a.vararg:
+                raise Unsupported("too many positional args")
+            vals[a.vararg.arg] = tuple(pos[len(names):])
+            pos = pos[:len(names)]
+        elif a.vararg:
+            vals[a.vararg.arg] = ()
         for nme, v in zip(names, pos):
             vals[nme] = v
+        extra_kw = {}
         for k, v in kwargs.items():
             if k in vals:
                 raise Unsupported("duplicate arg")
             if k not in names and k not in [x.arg for x in a.kwonlyargs]:
-                raise Unsupported(f"unexpected kwarg {k}")
+                if not a.kwarg:
+                    raise Unsupported(f"unexpected kwarg {k}")
+                extra_kw[k] = v
+                continue
             vals[k] = v
+        if a.kwarg:
+            vals[a.kwarg.arg] = PDict(extra_kw)
         # defaults
         defaults = a.defaults
         for nme, d in zip(names[len(names) - len(defaults):], defaults):
